@@ -1,0 +1,136 @@
+//! Verification hook H1 (only compiled with cargo feature `verif-hooks`).
+//!
+//! Every task spawned internally through [`crate::exec::spawn`] is wrapped in
+//! [`Deferred`], which lets a test harness postpone individual polls of the task
+//! (by waking itself and returning `Pending`, i.e. a plain yield) and count live tasks.
+//! The hook reads and writes no Remoc state.
+
+use std::{
+    cell::{Cell, RefCell},
+    future::Future,
+    panic::Location,
+    pin::Pin,
+    sync::atomic::{AtomicU32, AtomicU64, AtomicUsize, Ordering},
+    task::{Context, Poll},
+};
+
+use super::task::JoinHandle;
+
+/// Decision function: (spawn site, task id, poll number of that task) -> defer this poll?
+pub type DeferFn = Box<dyn FnMut(&'static Location<'static>, u64, u64) -> bool>;
+
+static LIVE: AtomicUsize = AtomicUsize::new(0);
+static SPAWNED: AtomicU64 = AtomicU64::new(0);
+static POLLS: AtomicU64 = AtomicU64::new(0);
+static DEFERRALS: AtomicU64 = AtomicU64::new(0);
+static GLOBAL_DEFER_PERMILLE: AtomicU32 = AtomicU32::new(0);
+
+thread_local! {
+    static DEFER: RefCell<Option<DeferFn>> = const { RefCell::new(None) };
+    static RNG: Cell<u64> = const { Cell::new(0x9E37_79B9_7F4A_7C15) };
+}
+
+/// Installs (or removes) the deferral decision function of the calling thread.
+pub fn set_defer(f: Option<DeferFn>) {
+    DEFER.with(|d| *d.borrow_mut() = f);
+}
+
+/// Sets a process-wide deferral probability (in 1/1000) used on threads
+/// that have no decision function installed.
+pub fn set_global_defer_permille(permille: u32) {
+    GLOBAL_DEFER_PERMILLE.store(permille, Ordering::Relaxed);
+}
+
+/// Number of internally spawned tasks that have not completed or been dropped yet.
+pub fn live_tasks() -> usize {
+    LIVE.load(Ordering::SeqCst)
+}
+
+/// Total number of internally spawned tasks.
+pub fn spawned_total() -> u64 {
+    SPAWNED.load(Ordering::SeqCst)
+}
+
+/// Total number of (non-deferred) polls of internally spawned tasks.
+pub fn polls_total() -> u64 {
+    POLLS.load(Ordering::SeqCst)
+}
+
+/// Total number of deferred polls.
+pub fn deferrals_total() -> u64 {
+    DEFERRALS.load(Ordering::SeqCst)
+}
+
+/// Future wrapper for internally spawned tasks.
+pub struct Deferred<F> {
+    fut: Pin<Box<F>>,
+    site: &'static Location<'static>,
+    id: u64,
+    polls: u64,
+}
+
+impl<F> Deferred<F> {
+    fn new(fut: F, site: &'static Location<'static>) -> Self {
+        LIVE.fetch_add(1, Ordering::SeqCst);
+        let id = SPAWNED.fetch_add(1, Ordering::SeqCst);
+        Self { fut: Box::pin(fut), site, id, polls: 0 }
+    }
+}
+
+impl<F> Drop for Deferred<F> {
+    fn drop(&mut self) {
+        LIVE.fetch_sub(1, Ordering::SeqCst);
+    }
+}
+
+impl<F: Future> Future for Deferred<F> {
+    type Output = F::Output;
+
+    fn poll(mut self: Pin<&mut Self>, cx: &mut Context<'_>) -> Poll<Self::Output> {
+        let this = &mut *self;
+        let n = this.polls;
+        this.polls += 1;
+
+        let defer = DEFER.with(|d| match d.try_borrow_mut() {
+            Ok(mut d) => match d.as_mut() {
+                Some(f) => Some(f(this.site, this.id, n)),
+                None => None,
+            },
+            Err(_) => Some(false),
+        });
+        let defer = match defer {
+            Some(defer) => defer,
+            None => {
+                let permille = GLOBAL_DEFER_PERMILLE.load(Ordering::Relaxed);
+                permille > 0
+                    && RNG.with(|r| {
+                        let mut x = r.get() ^ this.id.wrapping_mul(0x2545_F491_4F6C_DD1D);
+                        x ^= x << 13;
+                        x ^= x >> 7;
+                        x ^= x << 17;
+                        r.set(x);
+                        (x % 1000) < u64::from(permille)
+                    })
+            }
+        };
+
+        if defer {
+            DEFERRALS.fetch_add(1, Ordering::SeqCst);
+            cx.waker().wake_by_ref();
+            return Poll::Pending;
+        }
+
+        POLLS.fetch_add(1, Ordering::SeqCst);
+        this.fut.as_mut().poll(cx)
+    }
+}
+
+/// Spawns a task wrapped in [`Deferred`].
+#[track_caller]
+pub fn spawn<F>(future: F) -> JoinHandle<F::Output>
+where
+    F: Future + Send + 'static,
+    F::Output: Send + 'static,
+{
+    tokio::task::spawn(Deferred::new(future, Location::caller()))
+}
